@@ -5,7 +5,9 @@
    The model is compared with ovniemu's real files on every run; PCF labels, ROW names and the breakdown files are
    judged on the real output by an independent strict reader (lib/checks/c13.py). *)
 From Coq Require Import ZArith List Bool Sorted.
-From OV Require Import Emu.EmuCoreDefs Proofs.EmuCoreProofs Proofs.EmuCoreWf Proofs.PrvProofs.
+From OV Require Import Emu.EmuCoreDefs Emu.DecodeDefs Emu.MarkDefs Emu.LabelDefs Emu.TableFactsDefs Proofs.EmuCoreProofs Proofs.EmuCoreWf
+  Proofs.PrvProofs Proofs.LabelProofs Proofs.LabelDecode.
+From OV Require Gen.Tables_gen.
 Import ListNotations.
 Local Open Scope Z_scope.
 
@@ -26,3 +28,46 @@ Theorem C13_step_records_placed : forall sx st who ev st' ls,
   step sx st who ev = Ok (st', ls) -> Forall (line_ok sx) ls.
 Proof. exact step_lines_ok. Qed.
 Print Assumptions C13_step_records_placed.
+
+(* every value printed for a state type has a label.  For any subset of the eight models, any mark types, any
+   threads and CPUs, and any sequence of raw events (decoded by the handlers' dispatch): every record of an
+   accepted run belongs to a slot (a row of a file and a type) and its value is 0 or
+   - thread state: one of the five named states;  CPU affinity: one of the CPUs of the trace (the PCF lists them);
+   - a channel with a value table (subsystem, function, idle, flush, kernel, thread type): a value of that table
+     (Tables_gen.labels, dumped from the pcf_labels of the source on every run);
+   - a task-type timeline: the gid of a task type created in this trace (task_create_pcf_types labels those);
+   numeric timelines (TID, PID, task and body ids, app id, rank, number of running threads) are not state types. *)
+Theorem C13_values_labelled : forall sx en ms revs st tl,
+  In en (sublists all_models) -> s_chans sx = mk_chans en ++ mark_chans ms ->
+  run_from sx (init sx) (decode_events en (s_chans sx) revs) = Ok (st, tl) ->
+  forall tm l, In (tm, l) tl ->
+    exists s, In s (slots sx) /\ key_of sx s = (l_cpu l, l_row l, l_type l) /\ slot_labelled sx (types st) s (l_val l).
+Proof. exact values_labelled. Qed.
+Print Assumptions C13_values_labelled.
+
+(* the same for any events that only write labelled values, from any state satisfying the invariant *)
+Theorem C13_values_labelled_step : forall sx st who ev st' ls,
+  StaticOk sx -> ev_ok sx ev -> LInv sx st -> step sx st who ev = Ok (st', ls) ->
+  LInv sx st' /\ incl (types st) (types st') /\
+  forall l, In l ls -> exists s, In s (slots sx) /\ key_of sx s = (l_cpu l, l_row l, l_type l) /\ slot_labelled sx (types st') s (l_val l).
+Proof. exact step_values_labelled. Qed.
+Print Assumptions C13_values_labelled_step.
+
+(* the static conditions hold for the channel specs of the current source, for all 256 subsets of models *)
+Theorem C13_dumped_specs : forall sx en ms,
+  In en (sublists all_models) -> s_chans sx = mk_chans en ++ mark_chans ms -> StaticOk sx /\ tasks_found en (s_chans sx).
+Proof. exact specs_of_any_trace. Qed.
+Print Assumptions C13_dumped_specs.
+
+(* non-vacuity: a nOS-V thread entering the scheduler shows a non-zero, labelled subsystem value *)
+Definition ex_sx : static :=
+  {| s_threads := [{| ti_tid := 1; ti_pid := 1; ti_loom := 0; ti_appid := 1; ti_rank := -1 |}];
+     s_cpus := [{| ci_virtual := false; ci_loom := 0; ci_index := 0 |}; {| ci_virtual := true; ci_loom := 0; ci_index := -1 |}];
+     s_chans := mk_chans [M_OVNI; M_NOSV] ++ mark_chans []; s_lint := false |}.
+Definition ex_revs : list raw_event :=
+  [(0, 0%nat, (79, 72, 120), [0; 0; 0; 0; 1; 0; 0; 0; 0; 0; 0; 0], false, 0); (5, 0%nat, (86, 83, 104), [], false, 0)].
+Example C13_ex : exists st tl,
+  run_from ex_sx (init ex_sx) (decode_events [M_OVNI; M_NOSV] (s_chans ex_sx) ex_revs) = Ok (st, tl) /\
+  existsb (fun '(tm, l) => negb (l_val l =? 0) && static_chan M_NOSV Tables_gen.c_nosv_CH_SUBSYSTEM &&
+                           (l_type l =? cs_type (spec_of ex_sx (chan_of (s_chans ex_sx) M_NOSV Tables_gen.c_nosv_CH_SUBSYSTEM)))) tl = true.
+Proof. eexists. eexists. split; vm_compute; reflexivity. Qed.
